@@ -300,12 +300,13 @@ def bareOrigin : Ty → Ty
   | t => t
 
 /-- `JsonSchemaParser.annotate` (fix C15-4): const and enum get a rule of their own, all have to hold.
-`hasArgs`: the first rule is built even without constraints (item / value types, tuple options). -/
+`hasArgs`: the first rule is built even without constraints (item / value types, tuple options).
+(A Python dict has one entry per name; the document's member names are distinct, so each filter finds at most one.) -/
 def annotate (t : Ty) (hasArgs : Bool) (cons : Cons) : Option Ty :=
-  let singles := (["const", "enum"].filterMap fun k => (cons.lookup k).map fun v => [(k, v)])
+  let singles := (cons.filter fun c => c.1 == "const") ++ (cons.filter fun c => c.1 == "enum")
   let rest := cons.filter fun c => !(c.1 == "const" || c.1 == "enum")
   let first := if !rest.isEmpty || hasArgs || singles.isEmpty then [mkRule t rest] else []
-  match allSome (first ++ singles.map fun c => mkRule (bareOrigin t) c) with
+  match allSome (first ++ singles.map fun c => mkRule (bareOrigin t) [c]) with
   | some rules => some (combine .all rules)
   | none => none
 
@@ -477,13 +478,15 @@ def implicitTy (kvs : Obj) (subs : Subs) : Option Ty :=
   | some (.bool false) => some Ty.never
   | _ => some .any
 
-def mkFields (names : List String) (attnames : List String) (tys : List Ty) (req : List String) (deps : Obj) : List Fld :=
-  match names, attnames, tys with
-  | n :: ns, a :: as, t :: ts =>
-    .mk a n t (req.contains n) (match lookup n deps with
-      | some v => strsOf v
-      | none => []) :: mkFields ns as ts req deps
-  | _, _, _ => []
+def depsOf (deps : Obj) (n : String) : List String :=
+  match lookup n deps with
+  | some v => strsOf v
+  | none => []
+
+def mkFields (props : List (String × Ty)) (attnames : List String) (req : List String) (deps : Obj) : List Fld :=
+  match props, attnames with
+  | (n, t) :: ps, a :: as => .mk a n t (req.contains n) (depsOf deps n) :: mkFields ps as req deps
+  | _, _ => []
 
 def optNum (kvs : Obj) (k : String) : Option Num := (lookup k kvs).bind numOf
 
@@ -514,10 +517,10 @@ def parseObject (N : Names) (kvs : Obj) (subs : Subs) (cons : Cons) : Option Ty 
     | some (addK, addTy) =>
       let implicit := implicitNames.map fun n => (n, implicitTy kvs subs)
       let all := declared ++ implicit
-      match allSome (all.map (·.2)) with
+      match allSome (all.map fun p => p.2.map fun t => (p.1, t)) with
       | none => none
-      | some tys =>
-        let names := all.map (·.1)
+      | some props =>
+        let names := props.map (·.1)
         let attnames := assignAttnames N names names []
         let req := match lookup "required" kvs with
           | some v => strsOf v
@@ -525,12 +528,52 @@ def parseObject (N : Names) (kvs : Obj) (subs : Subs) (cons : Cons) : Option Ty 
         let deps := match lookup "dependentRequired" kvs with
           | some (.obj d) => d
           | _ => []
-        let cls := Ty.data (mkFields names attnames tys req deps) addK addTy (optNum kvs "minProperties") (optNum kvs "maxProperties")
+        let cls := Ty.data (mkFields props attnames req deps) addK addTy (optNum kvs "minProperties") (optNum kvs "maxProperties")
         -- const / enum of an object: a rule over the class each, compared as a dict (in the order of the document)
         some (cons.foldl (fun c kv =>
           if kv.1 == "const" then Ty.rule c [("enum", .arr [kv.2])]
           else if kv.1 == "enum" then Ty.rule c [("enum", kv.2)]
           else c) cls)
+
+/-- the class a `format` names, when it is of primitive type `t` (fix C15-3) -/
+def formatClass (kvs : Obj) (t : String) : Option Prim :=
+  match lookupStr "format" kvs with
+  | some f => (match typeMap f with
+    | some p => if primitiveOf p == t then some p else none
+    | none => none)
+  | none => none
+
+/-- the class of a scalar schema: by format / type, else the class of the const / first enum value, else Any -/
+def scalarClass (kvs : Obj) (ty : Option String) : Ty :=
+  match ty with
+  | some t => (match formatClass kvs t <|> typeMap t with
+    | some p => .prim p
+    | none => .any)
+  | none => (match lookup "const" kvs with
+    | some v => .prim (typeOfValue v)
+    | none => (match lookup "enum" kvs with
+      | some (.arr (v :: _)) => .prim (typeOfValue v)
+      | _ => .any))
+
+/-- null passes const / enum (fix C15-7: a Rule returns None before it looks at its constraints) -/
+def nullPasses (cons : Cons) : Bool :=
+  cons.all fun c =>
+    if c.1 == "const" then (match c.2 with
+      | .null => true
+      | _ => false)
+    else if c.1 == "enum" then (match c.2 with
+      | .arr vs => vs.any fun v => match v with
+        | .null => true
+        | _ => false
+      | _ => false)
+    else true
+
+/-- the constraints on a scalar class -/
+def constrain (t0 : Ty) (cons : Cons) : Option Ty :=
+  if cons.isEmpty then some t0
+  else match t0 with
+    | .prim .null => some (if nullPasses cons then t0 else Ty.never)
+    | _ => annotate t0 false cons
 
 /-- the type for the schema itself, before the combinators (parse_type, the part after `type` is known) -/
 def baseType (N : Names) (kvs : Obj) (subs : Subs) (ty : Option String) : Option Ty :=
@@ -538,39 +581,7 @@ def baseType (N : Names) (kvs : Obj) (subs : Subs) (ty : Option String) : Option
   let cons := getConstraints kvs ty
   if ty == some "array" then parseArray kvs subs cons
   else if ty == some "object" then parseObject N kvs subs cons
-  else
-    let t0 : Ty := match ty with
-      | some t =>
-        let byFormat := match lookupStr "format" kvs with
-          | some f => (match typeMap f with
-            | some p => if primitiveOf p == t then some p else none
-            | none => none)
-          | none => none
-        (match byFormat <|> typeMap t with
-         | some p => .prim p
-         | none => .any)
-      | none =>
-        (match lookup "const" kvs with
-         | some v => .prim (typeOfValue v)
-         | none => (match lookup "enum" kvs with
-           | some (.arr (v :: _)) => .prim (typeOfValue v)
-           | _ => .any))
-    if cons.isEmpty then some t0
-    else match t0 with
-      | .prim .null =>
-        -- fix C15-7: a Rule returns None before it looks at its constraints; null passes iff const / enum list it
-        some (if cons.all fun c =>
-                  if c.1 == "const" then (match c.2 with
-                    | .null => true
-                    | _ => false)
-                  else if c.1 == "enum" then (match c.2 with
-                    | .arr vs => vs.any fun v => match v with
-                      | .null => true
-                      | _ => false
-                    | _ => false)
-                  else true
-              then t0 else Ty.never)
-      | _ => annotate t0 false cons
+  else constrain (scalarClass kvs ty) cons
 
 /-- the conditions anyOf / oneOf / allOf (/ not) add (fix C15-4) -/
 def conditions (kvs : Obj) (subs : Subs) : Option (List Ty) :=
@@ -732,6 +743,7 @@ def conforms (R : Rx) (t : Ty) (j : Json) : Bool :=
     | .neg => !conformsAny R ts j)
   | .data fields add addTy minP maxP => (match j with
     | .obj o =>
+      strDistinct (keys o) &&          -- a published dict has one member per name
       conformsFields R fields o &&
       (o.all fun m => (fieldNames fields).contains m.1 || (match add with
         | .free => true
